@@ -314,15 +314,15 @@ From GL Require Codec.SessionRecord Mem.MemDB Codec.Journal.
    - the sequence number recoverTable recorded is what the session holds after the commit, and db.seq of the
      returned DB is at or above it, hence at or above the sequence number of every good key of every table
      that was registered (kept or rebuilt);
-   under the only hypothesis that no journal batch that the replay applied has "batchSeq + batchLen" >= 2^64
-   (os_kept is the list of applied batches).  That hypothesis is necessary: recoverJournal computes
-   "db.seq = batchSeq + uint64(batchLen)" in uint64 and a journal record whose header says
-   seq = 2^64 - 1, len = 1 with one record in its body is accepted and sets db.seq to 0. *)
+   with no hypothesis about the journal's contents: since the fix "decodeBatchToMem must reject a header whose
+   sequence numbers leave the key range" an applied batch has first seq + count <= keyMaxSeq, so recoverJournal's
+   "db.seq = batchSeq + uint64(batchLen)" cannot wrap (the side condition kparams_ok on the key constants is
+   re-proved for the generated constants on every run).  Before that fix the theorem needed "no applied batch has
+   batchSeq + batchLen >= 2^64"; see Props/C01.v C01_replay_seq_wrap_refuted for what the old code accepted. *)
 Theorem C19_recover_seq_above_all :
-  forall jcrc jp rp kp bhl mp tp tcrc compress decompress fname ufc verify wo fgen c o strict hts img r,
+  forall jcrc jp rp kp, kparams_ok kp -> forall bhl mp tp tcrc compress decompress fname ufc verify wo fgen c o strict hts img r,
   NoDup (map fst (si_files img)) ->
   recover_bytes jcrc jp rp kp bhl mp tp tcrc compress decompress fname ufc verify wo fgen c o strict hts img = OOk r ->
-  (forall b, In b (os_kept (rr_state r)) -> (fst b + snd b < 2 ^ 64)%N) ->
   map ts_num (rr_stats r) = table_files (si_files img) /\
   (rr_maxseq r <= os_seq (rr_state r))%N /\
   forall s, In s (rr_stats r) ->
@@ -334,7 +334,7 @@ Proof. exact recover_seq_above_all. Qed.
 Print Assumptions C19_recover_seq_above_all.
 
 (* The two halves it is made of: session.commit hands the record's sequence number to the session whichever way the
-   manifest is written; openDB's db.seq starts there and does not decrease (same hypothesis). *)
+   manifest is written; openDB's db.seq starts there and does not decrease, and no applied batch wraps. *)
 Theorem C19_commit_hands_seq :
   forall jcrc jp rp c n o rec st st' rec', seqset rp n rec ->
   commit jcrc jp rp c o rec st = OOk (st', rec') -> s_seq (c_sess st') = n.
@@ -342,9 +342,9 @@ Proof. exact commit_seq. Qed.
 Print Assumptions C19_commit_hands_seq.
 
 Theorem C19_open_rw_seq_monotone :
-  forall jcrc jp rp kp bhl mp tp tcrc compress snappy fgen blockSize ri c o hts cs r,
+  forall jcrc jp rp kp, kparams_ok kp -> forall bhl mp tp tcrc compress snappy fgen blockSize ri c o hts cs r,
   open_rw jcrc jp rp kp bhl mp tp tcrc compress snappy fgen blockSize ri c o hts cs = OOk r ->
-  (forall b, In b (os_kept r) -> (fst b + snd b < 2 ^ 64)%N) -> (s_seq (c_sess cs) <= os_seq r)%N.
+  (forall b, In b (os_kept r) -> (fst b + snd b < 2 ^ 64)%N) /\ (s_seq (c_sess cs) <= os_seq r)%N.
 Proof. exact open_rw_seq. Qed.
 Print Assumptions C19_open_rw_seq_monotone.
 
